@@ -3,16 +3,17 @@
 # Runs every stored seeded change (seeded/<PROP>-<name>/patch.diff) against the current machinery in a scratch worktree
 # and writes seeded/REGRESSION.txt: one line per change (detected yes/no, first violation clause).
 TIER=${1:-quick}; FILTER=${2:-}
-WT=/tmp/wt-regress
+V="$(cd "$(dirname "$0")/.." && pwd)"   # works from a snapshot copy of /verif as well
+WT=${REGRESS_WT:-/tmp/wt-regress}
 git -C /repo worktree remove --force $WT 2>/dev/null
 git -C /repo worktree add -q --detach $WT HEAD || exit 2
-OUT=/verif/seeded/REGRESSION.txt
+OUT=$V/seeded/REGRESSION.txt
 : > $OUT.tmp
-for d in /verif/seeded/*/; do
+for d in $V/seeded/*/; do
   n=$(basename $d); p=${n%%-*}
   [ -n "$FILTER" ] && [[ "$n" != *$FILTER* ]] && continue
   [ -f $d/patch.diff ] || continue
-  res=$(/verif/tools/seedtest.sh $WT $d/patch.diff $p $TIER 2>&1)
+  res=$($V/tools/seedtest.sh $WT $d/patch.diff $p $TIER 2>&1)
   rc=$(echo "$res" | grep -o "exit=[0-9]*" | tail -1)
   clause=$(echo "$res" | grep "^violation:" | head -1 | cut -d: -f2 | tr -d ' ')
   if echo "$res" | grep -q "patch does not apply"; then clause="PATCH-DOES-NOT-APPLY"; fi
